@@ -69,6 +69,7 @@ struct Op {
 struct Plan {
   uint64_t seed = 0;
   std::string mode = "hist";
+  int focus = 0;
   HeapConfig cfg;
   int backends = 3;          // bit 1: C, bit 2: C++
   int probe_reuse = 0;       // non-gating: keep using objects struck by an allocation failure
@@ -93,7 +94,7 @@ struct Pool {
   std::vector<std::vector<std::vector<int>>> inputs; // per good grammar: sentences and non-sentences
 };
 Pool make_pool(uint64_t pool_seed);
-Plan gen_hist_plan(uint64_t seed, bool oom);
+Plan gen_hist_plan(uint64_t seed, bool oom, int focus = 0);
 GrammarSpec gen_grammar(Rng &r);
 std::vector<int> gen_sentence(Rng &r, const GrammarSpec &g, int max_len);
 const std::vector<GrammarSpec> &handwritten_good();
